@@ -226,8 +226,9 @@ Definition send_frame (s : state) (f : frame) : state * bool :=
   if w_closing s && negb (closing_write_allowed (frame_opcode f)) then (s, true)
   else if tr_closing s then (s, true)
   else (set_sent s (sent s ++ [f]), false).
+(* WebSocketWriter.close(): `self._closing = True` FIRST, then the close frame (the guard lets CLOSE through) *)
 Definition writer_close (s : state) (code : N) : state * bool :=
-  let '(s, r) := send_frame s (FClose code) in (set_w_closing s true, r).
+  send_frame (set_w_closing s true) (FClose code).
 (* transport.close(): connection_lost is delivered by a later callback *)
 Definition transport_close (s : state) : state :=
   if tr_closing s then s else enq (set_tr_closing s true) RConnLost.
@@ -255,10 +256,8 @@ Definition close_exc (c : config) (s : state) (t : nat) (k : kont) : state :=
   close_ret (abnormal c (set_has_exc s true)) t k true.
 
 (* the loop `msg = await reader.read()` until a CLOSE message; buf is the reader's buffer (recursion is on it);
-   entered with the timeout deadline d.  Server: one deadline for the whole loop.  Client: a new
-   asyncio.timeout() per iteration. *)
-Definition next_deadline (c : config) (s : state) (d : N) : N :=
-  match c_side c with Server => d | Client => now s + c_close_tmo c end.
+   entered with the timeout deadline d: on both sides ONE asyncio.timeout() spans the whole loop. *)
+Definition next_deadline (c : config) (s : state) (d : N) : N := d.
 Fixpoint close_read_loop (c : config) (buf : list msg) (s : state) (t : nat) (k : kont) (d : N) : state :=
   match buf with
   | m :: rest =>
@@ -454,9 +453,9 @@ Definition run_wake (c : config) (s : state) (t : nat) : state :=
       else match fr with
            | FExc _ => close_exc c s t kk
            | _ =>
-             let d := match c_side c, t_tmo k with
-                      | Server, Some d => d
-                      | _, _ => now s + c_close_tmo c
+             let d := match t_tmo k with
+                      | Some d => d
+                      | None => now s + c_close_tmo c
                       end in
              close_read_resume c s t kk d
            end
